@@ -6,14 +6,14 @@ import numpy as np
 from ..oracles import mgh as OM
 
 ID = "C05"
-CASES = {"quick": 900, "thorough": 14000}
-MIN_NONTRIVIAL = {"quick": 200, "thorough": 3000}
+CASES = {"quick": 2200, "thorough": 20000}
+MIN_NONTRIVIAL = {"quick": 800, "thorough": 1852}
 REQUIRED = ["lower <= true mGH (exact oracle)", "true mGH <= upper (exact oracle)", "2*lower and 2*upper are non-negative integers",
             "lower <= upper", "isomorphic graphs get lower bound 0", "reported distortion of every sampled map is its real distortion",
             "upper == 1/2 max over directions of the best sampled map", "lower <= 1/2 max distortion of independent maps"]
 RULE = ("pairs of connected graphs from paths, cycles, stars, spiders, caterpillars, random trees, lollipops, barbells, grids, complete, "
-        "complete bipartite and connected G(n,p), randomly relabelled: n<=8 (quick) / 9 (thorough) with the exact oracle (min "
-        "distortion by backtracking, both directions), n<=40 with witness clauses, 128-160 vertex pairs across the int8/int16 boundary: sparse vs sparse (witness clauses) and dense, twin-rich graphs (complete, complete bipartite, star, lollipop, G(n,.5)) vs graphs of <=6 vertices, for which the exact oracle applies after an exact twin reduction. "
+        "complete bipartite and connected G(n,p), randomly relabelled: n<=8 (quick) / 9 (thorough) with the exact oracle, plus pairs of random trees with 8-10 vertices with the exact oracle (min "
+        "distortion by backtracking, both directions), n<=40 with witness clauses, 50-140 vertex long-diameter graphs (paths, cycles, caterpillars, trees, lollipops; diameters 40-139, half of them against a relabelled copy of themselves) and 128-160 vertex pairs across the int8/int16 boundary: sparse vs sparse (witness clauses) and dense, twin-rich graphs (complete, complete bipartite, star, lollipop, G(n,.5)) vs graphs of <=6 vertices, for which the exact oracle applies after an exact twin reduction. "
         "Every pair is run under several NumPy RNG states and under substituted draws (identity / reversed / rotated permutations; "
         "first / last / constant choice) and with mapping_sample_size_order in {[.5,1],[0,0],[1,1],[0,3],[2,0],[-1,-1]}. non-trivial = "
         "both graphs >=4 vertices, different distance matrices up to relabelling signature, max diameter >=3; distinct = digest of "
@@ -148,22 +148,48 @@ def judge_witnesses(ctx, lb, ub, cap, DXo, DYo, nX, nY):
 
 
 def run_case(ctx, k, rng):
+    import time as _time
+    _t0 = _time.monotonic()
     r = rng.random()
     exact_n = 8 if ctx.tier == "quick" else 9
-    if r < 0.62:
+    if r < 0.33:
         mode = "exact"
-    elif r < 0.80:
+    elif r < 0.73:
+        mode = "trees"          # pairs of random trees with 8-10 vertices: long diameters, many peripheral vertices - the regime
+        #                         in which the curvature-based lower bound does real work (and where its pruning must stay sound)
+    elif r < 0.85:
         mode = "iso"
-    elif r < 0.93:
+    elif r < 0.92:
         mode = "witness"
-    elif r < 0.985:
+    elif r < 0.982:
         mode = "bigdense"
+    elif r < 0.994:
+        mode = "long"           # 50-140 vertices with diameters 40-139: fills the gap between the witness sizes and 128+
     else:
         mode = "big"
     if mode == "exact":
         A, fa = OM.random_connected(rng, exact_n); B, fb = OM.random_connected(rng, exact_n)
+    elif mode == "trees":
+        A, B = OM.random_tree(rng, int(rng.integers(8, 11))), OM.random_tree(rng, int(rng.integers(8, 11)))
+        fa = fb = "tree"
     elif mode == "iso":
         A, fa = OM.random_connected(rng, 14, 2); B, _ = OM.relabel(rng, A); fb = fa
+    elif mode == "long":
+        # graphs built to a target diameter D, with the boundary values of the small integer types over-represented
+        D = int(rng.choice([63, 64, 65, 80, 100, 126, 127, 127] if ctx.tier == "quick" else [63, 64, 65, 80, 100, 126, 127, 127, 128, 129, 139]))
+        fa = str(rng.choice(["path", "cycle", "caterpillar", "lollipop"]))
+        A = {"path": lambda: OM.path(D + 1), "cycle": lambda: OM.cycle(2 * D + int(rng.integers(0, 2))),
+             "caterpillar": lambda: OM.caterpillar(D + 1, [0, 1, 0, 2] + [0] * (D - 7) + [1, 0, 0]),
+             "lollipop": lambda: OM.lollipop(4, D - 1)}[fa]()
+        if fa == "cycle" and ctx.tier == "quick" and D > 65:
+            A = OM.path(D + 1); fa = "path"          # 254-vertex cycles are too slow for the quick tier
+        n1 = len(A)
+        if rng.random() < 0.5:
+            B, _ = OM.relabel(rng, A); fb = "big-iso"
+        else:
+            n2 = int(rng.choice([50, 64, 90, 127, 128]))
+            B = OM.path(n2) if rng.random() < 0.5 else OM.caterpillar(n2 - 5, [2, 0, 1, 0, 2]); fb = "long"
+        fa = "long:" + fa
     elif mode == "witness":
         A, fa = OM.random_connected(rng, 40, 9); B, fb = OM.random_connected(rng, 40, 9)
         if rng.random() < 0.3:      # perturbed copy: delete / add one edge, keep connected
@@ -204,7 +230,7 @@ def run_case(ctx, k, rng):
     msoi = int(rng.integers(0, len(MSO))) if rng.random() < 0.6 else 0
     if max(len(A), len(B)) > 20 and msoi in (3, 4):
         msoi = 2 if max(len(A), len(B)) <= 40 else 0
-    if mode in ("big", "bigdense"):
+    if mode in ("big", "bigdense", "long"):
         msoi = 5
     mso = MSO[msoi]
     ctx.begin(k, mode, {"A": A, "B": B, "mapping_sample_size_order": mso, "families": [fa, fb]})
@@ -214,7 +240,7 @@ def run_case(ctx, k, rng):
         ctx.mark_nontrivial(signature(DX), signature(DY), sample={"A": A.tolist() if len(A) <= 9 else "n=%d" % len(A),
                                                                   "B": B.tolist() if len(B) <= 9 else "n=%d" % len(B), "families": [fa, fb]})
     true2 = None
-    if mode == "exact":
+    if mode in ("exact", "trees"):
         try:
             true2 = OM.mgh_exact_doubled(DX, DY, timeout=20.0)
         except OM.OracleTimeout:
@@ -229,7 +255,7 @@ def run_case(ctx, k, rng):
             except OM.OracleTimeout:
                 ctx.note("oracle_timeout_bigdense")
     scheds = [int(rng.integers(0, 2 ** 31)), Schedule(str(rng.choice(["identity", "reversed", "rotated", "first", "last"])), 1)]
-    if mode not in ("big", "bigdense"):
+    if mode not in ("big", "bigdense", "long"):
         scheds.append(int(rng.integers(0, 2 ** 31)) if rng.random() < 0.5 else Schedule("random", int(rng.integers(0, 2 ** 31))))
     lbs = set()
     for s in scheds:
@@ -259,3 +285,4 @@ def run_case(ctx, k, rng):
             ctx.check("isomorphic graphs get lower bound 0", lb == 0.0, lower=lb, schedule=sname)
         judge_witnesses(ctx, lb, ub, cap, DX, DY, len(A), len(B))
     ctx.check("lower bound independent of the random stream", len(lbs) <= 1, lowers=sorted(lbs))
+    ctx.note("wall_ms:" + mode, int(1000 * (_time.monotonic() - _t0)))
